@@ -39,7 +39,7 @@ pub struct CliScenario {
     pub convergence: Option<f64>,
     pub threads: u64,
     /// "none" | "enoent" | "enotdir" | "eisdir-json" | "eisdir-svg" | "enospc-json" | "enospc-svg"
-    /// | "start-config-missing"
+    /// | "start-config-missing" | "stale-output"
     pub fault: String,
 }
 
@@ -216,6 +216,12 @@ pub fn run_cli(sc: &CliScenario) -> Result<CliResult, String> {
         "enospc-json" => mk(std::os::unix::fs::symlink("/dev/full", dir.join("out.json")))?,
         "enospc-svg" => mk(std::os::unix::fs::symlink("/dev/full", dir.join("out.svg")))?,
         "start-config-missing" => start_config = Some(dir.join("no_such_config.json").to_string_lossy().to_string()),
+        // F-stale: both output files already exist, longer than anything the run will write
+        "stale-output" => {
+            let junk = vec![b'#'; 20_000];
+            mk(std::fs::write(dir.join("out.json"), &junk))?;
+            mk(std::fs::write(dir.join("out.svg"), &junk))?;
+        }
         other => return Err(format!("unknown fault {}", other)),
     }
     let argv = sc.argv(&out.to_string_lossy(), start_config.as_deref());
